@@ -42,9 +42,9 @@ CLASSES = gen.INSTANCE_CLASSES + ["recirc", "flexible", "zero"]
 def gen_cases(ctx):
     yield from W.gen_cases(
         ctx,
-        n_hist=ctx.scale(1200, 60000),
-        n_tree=ctx.scale(20, 1200),
-        n_consumer=ctx.scale(60, 2000),
+        n_hist=ctx.scale(3500, 100000),
+        n_tree=ctx.scale(60, 2500),
+        n_consumer=ctx.scale(200, 5000),
         tree_ops=(5, 7) if ctx.tier == "quick" else (6, 9),
         big=True,
         classes=CLASSES,
